@@ -262,7 +262,10 @@ def run_history(case, ctx):
           return
       else:
         _, mi, tag, r = op
-        v = canon.hexval(canon.functions(built[mi])[tag](r))
+        try:
+          v = canon.hexval(canon.functions(built[mi])[tag](r))
+        except Exception as e:   # outside the function's domain: must then fail the same way in a fresh process
+          v = "ERR:%s" % type(e).__name__
         nev += 1
         ctx.count("evaluations_compared")
         if v != want_eval[(mi, tag, r)]:
